@@ -67,6 +67,7 @@ static int c17_main(int argc,char **argv){
       c17_filt F; unsigned char *buf; long alloc=(len>0?len:0)+64,i; int intact=1;
       memset(&F,0,sizeof F);
       int noprime=(n>=7&&!strcmp(tok[6],"np"));
+      int wrapper=(n>=7&&!strcmp(tok[6],"wr"));   /* through the public ov_read (no filter: the input floats are not recorded) */
       if(n>=6&&strcmp(tok[5],"-")) F.inj=unhex(tok[5]);
       if(!noprime){
         ov_read_float(&vf,&pcm,0,NULL);           /* prime: fetches packets, consumes nothing */
@@ -75,12 +76,13 @@ static int c17_main(int argc,char **argv){
       hs=ov_halfrate_p(&vf); ch=ov_info(&vf,-1)->channels;
       t0=ov_pcm_tell(&vf);
       buf=malloc(alloc); memset(buf,0xAA,alloc);
-      rc=ov_read_filter(&vf,(char*)buf,(int)len,be,word,sgned,&bs,c17_filter,&F);
+      if(wrapper) rc=ov_read(&vf,(char*)buf,(int)len,be,word,sgned,&bs);
+      else rc=ov_read_filter(&vf,(char*)buf,(int)len,be,word,sgned,&bs,c17_filter,&F);
       t1=ov_pcm_tell(&vf);
       if(noprime&&rc>0&&bs>=0&&bs<ov_streams(&vf)) ch=ov_info(&vf,bs)->channels;   /* the link the data came from, as reported by the call */
       for(i=(rc>0?rc:0);i<alloc;i++) if(buf[i]!=0xAA){ intact=0; break; }
-      printf("read word=%d sgned=%d be=%d len=%ld ch=%d avail=%ld hs=%d rc=%s adv=%lld intact=%d in=",
-             word,sgned,be,len,ch,avail,hs,ovname(rc),(long long)(t1-t0),intact);
+      printf("read word=%d sgned=%d be=%d len=%ld ch=%d avail=%ld hs=%d wr=%d rc=%s adv=%lld intact=%d in=",
+             word,sgned,be,len,ch,avail,hs,wrapper,ovname(rc),(long long)(t1-t0),intact);
       puthex(F.rec.p,F.rec.n); printf(" out="); puthex(buf,rc>0?rc:0); putchar('\n');
       free(buf); free(F.rec.p); if(F.inj.p)free(F.inj.p);
     }else{
